@@ -1,9 +1,11 @@
 """C02 — genetic operators only produce well-formed, well-typed individuals.
 
-Lean: Vita/C02/{Model,Lemmas,Props}.lean (WF, operators as functions of explicit draws, decidable
-step relations, closure theorem).  Tie 1: tools/translate_mep_ops.py regenerates Vita/C02/Gen.lean (loop
-bounds, draw ranges, index expressions of the operators, from the clang AST) and Props.lean proves that
-they denote the model's operators (gen_*).  Tie 2: relational refinement — harness/c02_ops.cc runs the REAL
+Lean: Vita/C02/{Model,Lemmas,Props}.lean (WF, operators as functions of explicit draws AND of the environment
+they are given, decidable step relations, closure theorem over histories with one environment per step).
+Tie 1: tools/translate_mep_ops.py regenerates Vita/C02/Gen.lean (loop bounds, draw ranges, index expressions of
+the operators – recording WHICH quantity each bound uses: size() of the individual or a field of the problem –,
+the wedge loop of sum_container::roulette, the views symbol_set::roulette* ask, locus::operator<, the exon walk
+of random_locus, from the clang AST) and Props.lean proves that they denote the model's operators (gen_*).  Tie 2: relational refinement — harness/c02_ops.cc runs the REAL
 operators (every crossover flavour forced through the VITA_VERIF hook) on real individuals and
 prints pre/post genomes; the compiled Lean driver decides `WF post` and the operator's `Step`
 relation for every observed call; an independent C++ oracle (well-formedness + provenance, written
@@ -119,7 +121,13 @@ def run(chk, replay=None):
         chk.cov["translated"] = {"ctor_writes": len(tables["ctor"]), "destroy_writes": len(tables["destroy"]),
                                  "crossover_cases": [n for _, n in tables["xoverCases"]],
                                  "integer_draws": {k[6:]: len(tables[k]["draws"]) for k in tables if k.startswith("xover_")},
-                                 "gene_arg_bits": tables["geneArgs"]["bits"]}
+                                 "gene_arg_bits": tables["geneArgs"]["bits"],
+                                 "ctor_dims": [x[0] for x in tables["ctorDims"]],
+                                 "mutation_candidate_cases": str(tables["mutationCand"]).count("'cond'") + 1,
+                                 "wedge_loop": {"cmp": tables["wedge"]["cmp"], "step": [v for v, _ in tables["wedge"]["step"]]},
+                                 "roulette_views": [tables["rouletteSel"]["guard"], tables["rouletteSel"]["then"],
+                                                    tables["rouletteSel"]["else"], tables["rouletteTerminal"]],
+                                 "random_locus": tables["randomLocus"]["container"] + " " + tables["randomLocus"]["advance"]}
         chk.cov["gen_changed_vs_committed"] = bool(gen_changed)
     except Refuse as e:
         broken.append("tools/translate_mep_ops.py refuses the current sources (unknown shape of an operator): %s" % e)
@@ -390,6 +398,8 @@ def run(chk, replay=None):
              "are judged by the Lean driver (WF + Step relation), by the C++ oracle and by execution under "
              "ASan/UBSan; distinct = distinct request lines whose result differs from its operand(s)",
         trusted=["Lean 4.33 kernel", "tools/translate_mep_ops.py + cxx2lean.py (clang-14 JSON AST -> loop bounds, draw ranges, "
-                 "index expressions; shapes it does not know are refused)", "harness/c02_ops.cc (printing of genomes through operator[] / best() / age() / "
+                 "index expressions, the roulette wedge loop, the views asked by roulette / roulette_terminal, locus "
+                 "operator<, the shape of random_locus; shapes it does not know are refused)",
+                 "Vita/C02/GenSem.lean (meaning of loops / writes / draws / the wedge-loop language / the ordered-set walk)", "harness/c02_ops.cc (printing of genomes through operator[] / best() / age() / "
                  "the VITA_VERIF flavour accessor)", "hand-written model Vita/C02/Model.lean (bounds and index expressions tied by translation + "
                  "gen_* theorems, the rest by the relational check)", "g++ 12 ASan/UBSan", "contracts of std::uniform_int_distribution / bernoulli_distribution"])
